@@ -561,7 +561,13 @@ func keysOf[K comparable, V any](m map[K]V) map[K]bool {
 }
 
 // isDeltasLookupOf: v is s.deltas[key] (plain lookup) with the same key value.
+// When both v and key are parameters of an unexported helper, the relation
+// is decided at every call site of the helper instead.
 func (p *Prog) isDeltasLookupOf(v ssa.Value, key ssa.Value) bool {
+	return p.isDeltasLookupOfN(v, key, 0)
+}
+
+func (p *Prog) isDeltasLookupOfN(v ssa.Value, key ssa.Value, depth int) bool {
 	v = stripTrivial(v)
 	if mi, ok := v.(*ssa.MakeInterface); ok {
 		v = mi.X
@@ -570,7 +576,38 @@ func (p *Prog) isDeltasLookupOf(v ssa.Value, key ssa.Value) bool {
 	if ok && fr.is(storageT, "deltas") && !lk.CommaOk && sameValue(lk.Index, key) {
 		return true
 	}
-	return false
+	vp, ok1 := v.(*ssa.Parameter)
+	kp, ok2 := stripTrivial(key).(*ssa.Parameter)
+	if !ok1 || !ok2 || depth > 2 || vp.Parent() != kp.Parent() {
+		return false
+	}
+	fn := vp.Parent()
+	if fn.Object() == nil || fn.Object().Exported() {
+		return false
+	}
+	vi, ki := -1, -1
+	for i, prm := range fn.Params {
+		if prm == vp {
+			vi = i
+		}
+		if prm == kp {
+			ki = i
+		}
+	}
+	sites := p.CallersOf(fn)
+	if vi < 0 || ki < 0 || len(sites) == 0 {
+		return false
+	}
+	for _, cs := range sites {
+		c := cs.Instr.Common()
+		if c.IsInvoke() || len(c.Args) != len(fn.Params) {
+			return false
+		}
+		if !p.isDeltasLookupOfN(c.Args[vi], c.Args[ki], depth+1) {
+			return false
+		}
+	}
+	return true
 }
 
 // loopHeadOf returns the innermost loop header whose natural loop contains b.
@@ -838,14 +875,35 @@ func ruleS5(p *Prog, r *Report) {
 				if isWorker {
 					// the worker must forward the error in its result message
 					fwd := false
-					for _, ref := range *ev.Referrers() {
-						switch x := ref.(type) {
-						case *ssa.Store:
-							if fr, ok := asFieldAddr(x.Addr); ok && isErrorType(fieldType(fr)) {
-								fwd = true
+					seenV := map[ssa.Value]bool{}
+					var follow func(v ssa.Value)
+					follow = func(v ssa.Value) {
+						if seenV[v] || v.Referrers() == nil {
+							return
+						}
+						seenV[v] = true
+						for _, ref := range *v.Referrers() {
+							switch x := ref.(type) {
+							case *ssa.Store:
+								if fr, ok := asFieldAddr(x.Addr); ok && x.Val == v && isErrorType(fieldType(fr)) {
+									fwd = true
+								}
+							case *ssa.Phi:
+								// the error joins the "nothing to encode" path (nil) before it is sent;
+								// an edge taken after the encode that carries another value would drop it
+								drops := false
+								for i, e := range x.Edges {
+									if e != v && !seenV[e] && call.Block().Dominates(x.Block().Preds[i]) {
+										drops = true
+									}
+								}
+								if !drops {
+									follow(x)
+								}
 							}
 						}
 					}
+					follow(ev)
 					r.Decide(fwd, R, cons, p.InstrPos(in), "worker forwards the encode error in its result message", "worker does not forward the encode error")
 					return
 				}
